@@ -34,9 +34,7 @@ impl AddSpecImpl<u32> for BigInt {
 }
 impl Add<u32> for BigInt {
     type Output = BigInt;
-    //@ assume BigInt:Add<u32> : scalar leaf (src/bigint/addition.rs), unit pending; contract = canonical addition of the converted scalar
-    #[verifier::external_body]
-    fn add(self, other: u32) -> (r: BigInt) ensures r.wfi(), r.iv() == self.iv() + other as int { unimplemented!() }
+//@ stub i_scalar/add_u32
 }
 impl SubSpecImpl<u32> for BigInt {
     open spec fn obeys_sub_spec() -> bool { false }
@@ -45,9 +43,7 @@ impl SubSpecImpl<u32> for BigInt {
 }
 impl Sub<u32> for BigInt {
     type Output = BigInt;
-    //@ assume BigInt:Sub<u32> : scalar leaf (src/bigint/subtraction.rs), unit pending
-    #[verifier::external_body]
-    fn sub(self, other: u32) -> (r: BigInt) ensures r.wfi(), r.iv() == self.iv() - other as int { unimplemented!() }
+//@ stub i_scalar/sub_u32
 }
 impl AddSpecImpl<i32> for BigInt {
     open spec fn obeys_add_spec() -> bool { false }
@@ -56,9 +52,7 @@ impl AddSpecImpl<i32> for BigInt {
 }
 impl Add<i32> for BigInt {
     type Output = BigInt;
-    //@ assume BigInt:Add<i32> : scalar leaf via checked_uabs (src/bigint/addition.rs), unit pending
-    #[verifier::external_body]
-    fn add(self, other: i32) -> (r: BigInt) ensures r.wfi(), r.iv() == self.iv() + other as int { unimplemented!() }
+//@ stub i_scalar/add_i32
 }
 impl SubSpecImpl<i32> for BigInt {
     open spec fn obeys_sub_spec() -> bool { false }
@@ -67,7 +61,5 @@ impl SubSpecImpl<i32> for BigInt {
 }
 impl Sub<i32> for BigInt {
     type Output = BigInt;
-    //@ assume BigInt:Sub<i32> : scalar leaf via checked_uabs (src/bigint/subtraction.rs), unit pending
-    #[verifier::external_body]
-    fn sub(self, other: i32) -> (r: BigInt) ensures r.wfi(), r.iv() == self.iv() - other as int { unimplemented!() }
+//@ stub i_scalar/sub_i32
 }
